@@ -3,4 +3,4 @@ CONSTANTS
   Profile = "quick"
   Group = "design"
 INVARIANT LawCsvWriterLossless
-INVARIANT LawSepFormatSafe
+INVARIANT LawSepFormatLossless
